@@ -126,6 +126,20 @@ def binByPhase (edges ip x : List Rat) : List (Option Rat × Option Rat) :=
     let s := binValues edges ip x b
     (mean? s, var? s)
 
+/-- `np.average(values, weights=w)` on (weight, value) pairs: Σ w·v / Σ w; NaN when the bin is
+    empty (the weighted branch skips empty bins and leaves the initial NaN) -/
+def wmean? (l : List (Rat × Rat)) : Option Rat :=
+  if l.isEmpty then none
+  else some (Sig.sum (l.map fun p => p.1 * p.2) / Sig.sum (l.map (·.1)))
+
+/-- the (weight, observation) pairs whose phase falls in bin b -/
+def binPairs (edges ip w x : List Rat) (b : Nat) : List (Rat × Rat) :=
+  ((ip.zip (w.zip x)).filter fun p => digitize edges p.1 = b + 1).map (·.2)
+
+/-- bin_by_phase with `weights=`: per bin the weighted mean of its observations (positive weights) -/
+def binByPhaseW (edges ip w x : List Rat) : List (Option Rat) :=
+  (List.range (edges.length - 1)).map fun b => wmean? (binPairs edges ip w x b)
+
 /-! ## protocol -/
 
 open Protocol
@@ -165,6 +179,15 @@ def handle (o : Op) : Option String :=
       if ip.length ≠ x.length then return "bad-op"
       let r := binByPhase edges ip x
       return "ok | " ++ fmtOptRats (r.map (·.1)) ++ " | " ++ fmtOptRats (r.map (·.2))
+  | "BINPHW" => some <| Id.run do
+      let some edges := o.vec? 0 | return "bad-op"
+      let some ip := o.vec? 1 | return "bad-op"
+      let some w := o.vec? 2 | return "bad-op"
+      let some x := o.vec? 3 | return "bad-op"
+      if ip.length ≠ x.length ∨ ip.length ≠ w.length then return "bad-op"
+      -- only positive weights are modelled (np.average raises ZeroDivisionError on a zero weight sum)
+      if w.any (· ≤ 0) then return "bad-op"
+      return "ok | " ++ fmtOptRats (binByPhaseW edges ip w x)
   | _ => none
 
 end CycleStats
